@@ -13,6 +13,7 @@ import (
 	runewidth "github.com/mattn/go-runewidth"
 
 	"verif/hc"
+	"verif/ref/shadow"
 	"verif/seq"
 )
 
@@ -70,8 +71,8 @@ func eqRunes(a, b []rune) bool {
 // obsWidth / obsRune: what GetContent must report for stored rune r.
 func obs(r rune) (rune, int) {
 	w := rw(r)
-	if w == 0 || r < ' ' {
-		return ' ', 1
+	if w == 0 || r < ' ' || shadow.Invisible(r) {
+		return ' ', 1 // zero-width by the width table or by the Unicode category (Cf, Mn, Me, noncharacters)
 	}
 	return r, w
 }
@@ -462,7 +463,7 @@ func scenarios() []scenario {
 	// F: control / invalid runes through SetContent and Fill on 2x1
 	{
 		var ops []op
-		for _, r := range []rune{0, 0x1b, 0x7f, 0x9b, -1, 0x110000, 0xd800, 0x200b, 'a'} {
+		for _, r := range []rune{0, 0x1b, 0x7f, 0x9b, -1, 0x110000, 0xd800, 0x200b, 0x2066, 0x0591, 0xfdd0, 'a'} {
 			ops = append(ops, op{kind: "set", x: 0, r: r})
 			ops = append(ops, op{kind: "fill", r: r})
 		}
